@@ -670,6 +670,9 @@ func (o *baseObject) _defineOwnProperty(name unistring.String, existingValue Val
 			}
 		}
 
+		// ValidateAndApplyPropertyDescriptor, step 4: a field that is present counts, even if its value is undefined
+		isAccessorDesc := descr.Getter != nil || descr.Setter != nil
+		isDataDesc := descr.Value != nil || descr.Writable != FLAG_NOT_SET
 		if !existing.configurable {
 			if descr.Configurable == FLAG_TRUE {
 				goto Reject
@@ -677,13 +680,10 @@ func (o *baseObject) _defineOwnProperty(name unistring.String, existingValue Val
 			if descr.Enumerable != FLAG_NOT_SET && descr.Enumerable.Bool() != existing.enumerable {
 				goto Reject
 			}
-		}
-		if existing.accessor && descr.Value != nil || !existing.accessor && (getterObj != nil || setterObj != nil) {
-			if !existing.configurable {
+			if existing.accessor && isDataDesc || !existing.accessor && isAccessorDesc {
 				goto Reject
 			}
-		} else if !existing.accessor {
-			if !existing.configurable {
+			if !existing.accessor {
 				if !existing.writable {
 					if descr.Writable == FLAG_TRUE {
 						goto Reject
@@ -692,13 +692,23 @@ func (o *baseObject) _defineOwnProperty(name unistring.String, existingValue Val
 						goto Reject
 					}
 				}
-			}
-		} else {
-			if !existing.configurable {
+			} else {
 				if descr.Getter != nil && existing.getterFunc != getterObj || descr.Setter != nil && existing.setterFunc != setterObj {
 					goto Reject
 				}
 			}
+		}
+		// step 5: converting between the two kinds resets the fields of the other kind to their defaults
+		if existing.accessor && isDataDesc {
+			existing.accessor = false
+			existing.getterFunc = nil
+			existing.setterFunc = nil
+			existing.value = nil
+			existing.writable = false
+		} else if !existing.accessor && isAccessorDesc {
+			existing.accessor = true
+			existing.value = nil
+			existing.writable = false
 		}
 	}
 
